@@ -3,10 +3,8 @@ package c10
 import (
 	"bytes"
 	"encoding/pem"
-	"math/big"
 
 	"github.com/emmansun/gmsm/sm9"
-	hk "github.com/emmansun/gmsm/verifhook"
 
 	"verifh/mon"
 	ref "verifh/ref/sm9"
@@ -19,7 +17,7 @@ import (
 // *work* (cold lazy state): sign/verify, wrap/unwrap with parsed keys.
 func keys(x *mon.Ctx) {
 	selfTest(x)
-	n := x.Scale(54, 540)
+	n := x.Scale(36, 540)
 	for i := 0; i < n; i++ {
 		mk := masterKinds[i%len(masterKinds)]
 		hid := hids[(i/len(masterKinds))%4]
@@ -329,8 +327,6 @@ func keysCase(c *mon.Case, mk string, hid byte) {
 			c.Eq("master public key carried with the EncryptPrivateKey", u2.MasterPublic().Bytes(), epub.Bytes())
 		}
 	}
-	_ = big.NewInt
-	_ = hk.Gen1
 }
 
 // noteCompressed records which point form MarshalCompressedASN1 emits (the
